@@ -274,7 +274,7 @@ func expandMacros(s string, depth int) string {
 }
 
 func parseSpecExpr(s string) (ast.Expr, error) {
-	d := desugar(expandMacros(strings.TrimSpace(s), 0))
+	d := desugar(expandMacros(strings.ReplaceAll(strings.TrimSpace(s), "$", "dollar_"), 0))
 	e, err := parser.ParseExpr(d)
 	if err != nil {
 		return nil, fmt.Errorf("%v in %q", err, d)
